@@ -299,3 +299,48 @@ func keysS(m map[string]bool) []string {
 	sort.Strings(out)
 	return out
 }
+
+// ------------------------------------------------------------------ C04 (through the processor)
+
+// Messages over the full field ranges (incl. sub-second timestamps), observed under generated set
+// indices and store contents: the digest the node signs must be the reference digest of the message,
+// whatever is stored, whichever set is current and whichever key signs.
+func TestVerif_C04_Processor(t *testing.T) {
+	vh.Check(t, vh.Prop[procCase]{ID: "C04", Gen: func(t *rapid.T) procCase {
+		nmsg := rapid.IntRange(1, 3).Draw(t, "nmsg")
+		msgs := genMsgs(t, nmsg, false)
+		for i := range msgs {
+			b := vh.GenBody(t, "b", 1, 2000)
+			msgs[i].Nonce, msgs[i].CL, msgs[i].TC, msgs[i].PLen, msgs[i].PSeed = b.Nonce, b.CL, b.TC, b.PLen, b.PSeed
+			if rapid.Bool().Draw(t, "fullseq") {
+				msgs[i].Seq = b.Seq
+			}
+			msgs[i].Nanos = rapid.OneOf(rapid.Just(int64(0)), rapid.Int64Range(0, 999999999)).Draw(t, "nanos")
+		}
+		ops := genOps(t, nmsg, 25, false, true)
+		if nmsg >= 2 && rapid.Bool().Draw(t, "sameid") {
+			// two observations of one message id whose timestamps differ by a few seconds, the first already stored
+			// (by a peer's VAA or by reaching quorum): what the node signs for the second must not depend on the store
+			msgs[1].IDSel, msgs[1].Chain, msgs[1].TC, msgs[1].Seq = msgs[0].IDSel, msgs[0].Chain, msgs[0].TC, msgs[0].Seq
+			msgs[1].Ts = uint32(int64(msgs[0].Ts) + int64(rapid.IntRange(-40, 40).Draw(t, "dts2")))
+			pre := []op{{K: "set", A: rapid.IntRange(1, 4).Draw(t, "size"), B: 0, C: 0, D: 1}}
+			if rapid.Bool().Draw(t, "viaPeer") {
+				pre = append(pre, op{K: "inbound", A: 0, B: 0, C: 1})
+			} else {
+				pre = append(pre, op{K: "observe", A: 0}, op{K: "loopback", A: 0}, op{K: "gossip", A: 0, B: 1}, op{K: "gossip", A: 0, B: 2}, op{K: "gossip", A: 0, B: 3})
+			}
+			ops = append(append(pre, op{K: "observe", A: 1}), ops...)
+		}
+		return procCase{Msgs: msgs, Ops: ops}
+	}, Run: func(c procCase) (*vh.Violation, vh.Outcome) {
+		v, o := runProc(c, oracles{digest: true, pfx: "C04"}, 50)
+		nobs := 0
+		for _, x := range c.Ops {
+			if x.K == "observe" || x.K == "inject" {
+				nobs++
+			}
+		}
+		o.NonTrivial = nobs >= 2
+		return v, o
+	}})
+}
